@@ -97,6 +97,23 @@ func genLines(t *rapid.T, v6 bool, allowBad bool, min int) []Line {
 		pos := rapid.IntRange(0, len(ls)).Draw(t, "badpos")
 		ls = append(ls[:pos], append([]Line{bad}, ls[pos:]...)...)
 	}
+	// one very long line (around and beyond 64 KiB, where line readers give up): what follows
+	// it, and the line itself, still count
+	if len(ls) > 0 && rapid.IntRange(0, 9).Draw(t, "longline") == 0 {
+		i := rapid.IntRange(0, len(ls)-1).Draw(t, "longpos")
+		if ls[i].Kind == "empty" {
+			ls[i] = Line{Kind: "comment"}
+		}
+		ls[i].Pad = rapid.SampledFrom([]int{4096, 65490, 65536, 66000, 70000, 140000}).Draw(t, "pad")
+	}
+	return ls
+}
+
+// noPad removes the long-line padding (refresh files are rewritten in place at a fixed length)
+func noPad(ls []Line) []Line {
+	for i := range ls {
+		ls[i].Pad = 0
+	}
 	return ls
 }
 
@@ -111,12 +128,12 @@ func GenStatic(t *rapid.T) Case {
 // GenRefresh draws an autorefresh scenario
 func GenRefresh(t *rapid.T) Case {
 	c := Case{Sub: "refresh", V6: rapid.Bool().Draw(t, "v6")}
-	c.Lines = genLines(t, c.V6, false, 1)
+	c.Lines = noPad(genLines(t, c.V6, false, 1))
 	n := rapid.IntRange(2, 6).Draw(t, "nrewrites")
 	for i := 0; i < n; i++ {
 		rw := Rewrite{Pause: rapid.SampledFrom([]int{0, 0, 0, 1, 5, 30}).Draw(t, "pause")}
 		bad := rapid.IntRange(0, 2).Draw(t, "bad-rewrite") == 0
-		rw.Lines = genLines(t, c.V6, false, 1)
+		rw.Lines = noPad(genLines(t, c.V6, false, 1))
 		if bad {
 			b := genEntry(t, c.V6, 3)
 			b.Kind = rapid.SampledFrom([]string{"one-field", "three-fields", "bad-mac", "bad-ip", "wrong-family"}).Draw(t, "badkind")
@@ -135,6 +152,9 @@ func GenRefresh(t *rapid.T) Case {
 			rw.Lines = append(rw.Lines[:pos], append([]Line{b}, rw.Lines[pos:]...)...)
 		} else if rapid.IntRange(0, 3).Draw(t, "append") == 0 {
 			rw.Append = true
+		} else if rapid.IntRange(0, 3).Draw(t, "burst") == 0 {
+			rw.BigLines = noPad(genLines(t, c.V6, false, 1))
+			rw.Filler = rapid.SampledFrom([]int{2000, 8000, 20000}).Draw(t, "filler")
 		}
 		c.Rewrites = append(c.Rewrites, rw)
 	}
